@@ -137,14 +137,19 @@ def graph4():
         message('RunResult', [field('out', 1, 'string'), field('detail', 2, Q('RunDetail'))]), message('RunDetail', [field('n', 1, 'int32')]),
         message('RunMeta', [field('pct', 1, 'int32'), field('stage', 2, 'enum:' + Q('RunStage'))]),
         message('PurgeRequest', [field('name', 1, 'string')]),
-        message('PurgeMeta', [field('done_count', 1, 'int32'), field('stage', 2, Q('PurgeStage'))]),
-        message('PurgeStage', [field('s', 1, 'string'), field('level', 2, 'enum:' + Q('PurgeLevel'))]),
         message('WipeRequest', [field('name', 1, 'string')]),
         message('WipeResult', [field('w', 1, Q('WipeDetail'))]), message('WipeDetail', [field('d', 1, 'string')]),
         message('PlainRequest', [field('name', 1, 'string')]), message('PlainResponse', [field('p', 1, Q('OnlyPlain'))]),
         message('OnlyPlain', [field('v', 1, 'string')]),
     ]
-    enums = [enum('RunStage', 'RUN_STAGE_UNSPECIFIED', 'RS1'), enum('PurgeLevel', 'PURGE_LEVEL_UNSPECIFIED', 'PL1')]
+    enums = [enum('RunStage', 'RUN_STAGE_UNSPECIFIED', 'RS1')]
+    # the metadata types of Purge live in a file that the service's file does not import and that is listed after it
+    # (operation_info names types by string)
+    later = file('acme/sel/v1/zz_purge_types.proto', P, messages=[
+        message('PurgeMeta', [field('done_count', 1, 'int32'), field('stage', 2, Q('PurgeStage'))]),
+        message('PurgeStage', [field('s', 1, 'string'), field('level', 2, 'enum:' + Q('PurgeLevel'))]),
+        message('UnusedLater', [field('u', 1, 'string')])], enums=[enum('PurgeLevel', 'PURGE_LEVEL_UNSPECIFIED', 'PL1')])
+    later.dependency.extend(desc.std_dep_names())
     jobs = service('Jobs', [
         method('Run', Q('RunRequest'), OPERATION, http=('post', '/v1/{name=jobs/*}:run', '*'), lro=('RunResult', 'RunMeta')),
         method('Purge', Q('PurgeRequest'), OPERATION, http=('post', '/v1/{name=jobs/*}:purge', '*'),
@@ -154,7 +159,7 @@ def graph4():
         method('Plain', Q('PlainRequest'), Q('PlainResponse'), http=('get', '/v1/{name=plains/*}'))])
     f = file('acme/sel/v1/jobs.proto', P, messages=msgs, enums=enums, services=[jobs])
     f.dependency.extend(desc.std_dep_names())
-    return [f]
+    return [f, later]
 
 
 # ---------------------------------------------------------------- reference closure
